@@ -21,7 +21,7 @@ var stubCommon = []string{
 
 var Specs = map[string]*sim.Spec{
 	"C08": {Sim: "valsim", GenConfig: genConfig("C08"), Run: run("C08"), Real: append([]string{"network/records: SignedNodeInfo / NodeInfo Consume + UnmarshalRecord, NodeMetadata.Decode, Subnets.FromString"}, realCommon...), Stub: stubCommon,
-		Rule: "Seeded programs of: slot/time advance, duty start at all operators of a committee, pump (gossip the next honest broadcasts through the validator, then deliver them to the committee), round timeout, honest partial signature, and injections: raw random bytes at 4 nesting depths, byte-level mutations (flip / truncate / extend / set / boundary integer / SSZ offset) of honest messages at wire, payload or data level with re-signed envelopes, structurally valid messages from boundary tables written by a limit-free SSZ writer (round 0, 2^63, 2^64-1; height 0, 2^63, max; 0 / 14 / unsorted / duplicate signers; unknown types and roles; truncated, nested, 14-long, oversize justifications; 0-length, 1 MiB, max+1 and 9 MiB data), right and wrong topics, through ValidatePubsubMessage and ValidateSSVMessage. Oracle: recovered panic (signature = panicking function@file:line), > 10 s real time, > 64 MiB + 50 x input allocated. DECODER HALF (dec steps, share drawn per run 0-100%): honestly nothing but seeded input mutation of corpus / honest / random bytes into the 9 standalone decoders - there is no schedule in them. Non-trivial: >= 6 honest messages accepted before the end (the validator has per-signer history); distinct = hash of (message kind, verdict, number of signer records) sequence.",
+		Rule:        "Seeded programs of: slot/time advance, duty start at all operators of a committee, pump (gossip the next honest broadcasts through the validator, then deliver them to the committee), round timeout, honest partial signature, and injections: raw random bytes at 4 nesting depths, byte-level mutations (flip / truncate / extend / set / boundary integer / SSZ offset) of honest messages at wire, payload or data level with re-signed envelopes, structurally valid messages from boundary tables written by a limit-free SSZ writer (round 0, 2^63, 2^64-1; height 0, 2^63, max; 0 / 14 / unsorted / duplicate signers; unknown types and roles; truncated, nested, 14-long, oversize justifications; 0-length, 1 MiB, max+1 and 9 MiB data), right and wrong topics, through ValidatePubsubMessage and ValidateSSVMessage. Oracle: recovered panic (signature = panicking function@file:line), > 10 s CPU time of the calling thread, > 64 MiB + 50 x input allocated. DECODER HALF (dec steps, share drawn per run 0-100%): honestly nothing but seeded input mutation of corpus / honest / random bytes into the 9 standalone decoders - there is no schedule in them. Non-trivial: >= 6 honest messages accepted before the end (the validator has per-signer history); distinct = hash of (message kind, verdict, number of signer records) sequence.",
 		Assumptions: []string{"a call that never returns cannot be reported as a violation record: an out-of-bubble watchdog prints the input after 30 s and the worker then times out (exit 2)", "allocation is measured with runtime/metrics heap allocs (Go heap only; OpenSSL allocations are not counted)", "regime C (concurrent validation) not simulated"}},
 	"C09": {Sim: "valsim", GenConfig: genConfig("C09"), Run: run("C09"), Real: realCommon, Stub: stubCommon,
 		Rule: "Same world and step kinds as C08 (without the decoder half and the ValidateSSVMessage entry). Oracle 1: every ACCEPTED gossip message is judged by a reference predicate written from the statement (own validator / operator-key tables, own topic, leader, quorum and window arithmetic, stdlib RSA, own per-(validator, role, signer) record updated with every accepted consensus message); windows wider than the implementation's: slot <= 2 early, <= 8 / 48 late; round 1..16 and <= elapsed-time estimate + 3. Oracle 2: before every honest message is gossiped, up to 32 single-rule mutants of it (topic, 4 validator states, 6 envelope faults, signer order / duplicate / zero / non-member / count, leader, full-data hash, slot window incl. a slot whose start time wraps around, round window, partial-signature slot and signer) and after its acceptance 6 history mutants (replay, same type other root, slot back, decided slot back, round back, second proposal with other data) are gossiped with correctly re-signed envelopes; a mutant that the reference confirms as rule-breaking must not be accepted. Step mask selects the mutants (all of them in 25% of the pumps, a random quarter or eighth otherwise). Non-trivial: >= 6 honest messages accepted.",
